@@ -86,3 +86,15 @@ Theorem C08_rename_old_code_refuted : exists mask ps new i p,
   nth_error mask i = Some true /\ nth_error ps i = Some p /\
   nth_error (rename_old mask ps new) i <> Some p.
 Proof. exact rename_old_refuted. Qed.
+
+(* ---- restricted sensitivities: what a reduced mechanistic model asks its wrapped model for ---- *)
+(* after ANY history of fix / release / switching sensitivities on and off, the sensitivities requested are those
+   with respect to the free parameters, in their original order (or none, when switched off) *)
+Theorem C08_sensitivities_follow_free : forall (V : Type) names (ops : list (rop V)), rok (rrun rstep names ops).
+Proof. exact @sens_follow_free. Qed.
+(* refreshing the request only when the NUMBER of fixed parameters changed, or not at all once nothing is fixed,
+   leaves stale requests behind *)
+Theorem C08_refresh_on_count_refuted : exists names (ops : list (rop nat)), ~ rok (rrun rstep_count names ops).
+Proof. exact sens_refresh_on_count_refuted. Qed.
+Theorem C08_early_return_refuted : exists names (ops : list (rop nat)), ~ rok (rrun rstep_early names ops).
+Proof. exact sens_early_return_refuted. Qed.
